@@ -22,10 +22,12 @@ TECHNIQUE = (
 )
 LEVEL_TEXT = (
     "Built frames: every legal (destination kind, TPCI) pair x GroupValueWrite/Response for every APDU length 1..254 (refusal for "
-    "255, 256, 300) plus one parsed instance of every other APCI service class the decoder produces x all 64 control-flag "
+    "255, 256, 300) plus several decoded instances of every other APCI service class (every layout of multi-layout services from "
+    "vlib/apci_gen.canonical_frames, with all-zero / all-0xFF bodies and every single octet set to 0x00 / 0xFF, plus up to four from the "
+    "own corpus; the length octet is compared with the TPDU octets actually emitted) x all 64 control-flag "
     "combinations x hop counts -1..8, 15, 16, 255 x the three L_Data message codes x with/without additional info (thorough: full "
     "cross at the boundary lengths 1, 2, 14, 15, 16, 17, 254; quick: rotating combinations).  Received frames: every L_Data frame the "
-    "C12 structured corpus makes from_knx accept is re-serialised and compared with the received octets.  Exploration: generated, not complete."
+    "C12 structured corpus makes from_knx accept, and every one of those service variants wrapped as group / connected data frame, is re-serialised and compared with the received octets.  Exploration: generated, not complete."
 )
 LEVEL_NOTE = (
     "Trusted: CPython, vlib/eqv.py (structural equality for classes without __eq__), the masks in vlib/cemi_gen.py.  Judged: equality "
@@ -98,31 +100,71 @@ def _gv_payload(length: int, rng: random.Random, response: bool = False) -> APCI
 _gv_payload.refused_at_creation = 0
 
 
+def _variant_apdus(ctx) -> list[tuple[str, bytes]]:
+    """Valid APDUs of every service class and layout (vlib/apci_gen.canonical_frames, read-only) plus, for each, the
+    all-zero / all-0xFF body and every single octet set to 0x00 / 0xFF (zero and 0xFF fills of every field)."""
+    try:
+        from vlib import apci_gen
+
+        canon = apci_gen.canonical_frames()
+    except Exception:  # noqa: BLE001
+        ctx.count("apci_gen_unavailable")
+        canon = []
+    out: list[tuple[str, bytes]] = []
+    seen: set[bytes] = set()
+    for name, raw in canon:
+        n = len(raw)
+        cands = [raw]
+        if n > 2:
+            cands += [raw[:2] + bytes(n - 2), raw[:2] + b"\xff" * (n - 2)]
+            for pos in range(2, n):
+                for v in (0x00, 0xFF):
+                    if raw[pos] != v:
+                        cands.append(raw[:pos] + bytes((v,)) + raw[pos + 1:])
+        else:
+            cands += [bytes((raw[0], raw[1] | 0x3F)), bytes((raw[0], raw[1] & 0xC0))]
+        for c in cands:
+            if c not in seen:
+                seen.add(c)
+                out.append((name, c))
+    ctx.count("variant_apdus", len(out))
+    return out
+
+
 def _service_instances(ctx, rng: random.Random) -> list[tuple[str, APCI, int]]:
-    """One real instance per APCI service class, obtained from the real decoder over the own APDU corpus."""
-    found: dict[str, tuple[APCI, int]] = {}
-    for _apci, raw in G.apdu_corpus(rng, False):
-        if len(raw) < 2 or len(raw) > 255:
-            continue
+    """Several real instances per APCI service class (every layout, zero / 0xFF fills), obtained from the real decoder.
+
+    Returns (class name, object, NPDU length = octets the object's own encoder emits - 1).  Kept only if the
+    service's own codec treats the object as a fixed point (decoder/encoder asymmetries are C05/C06's subject);
+    `calculated_length()` is deliberately NOT consulted here: that it agrees with the emitted octets is judged
+    on the frame (length octet, frame type bit, parse-back).
+    """
+    found: dict[tuple[str, bytes], tuple[APCI, int]] = {}
+    per_class: dict[str, int] = {}
+    own = [(None, raw) for _apci, raw in G.apdu_corpus(rng, False) if 2 <= len(raw) <= 255]
+    for origin, raw in _variant_apdus(ctx) + own:
         try:
             obj = APCI.from_knx(raw)
         except Exception:  # noqa: BLE001  (decode totality is C04's subject)
             continue
         name = type(obj).__name__
-        if name in found:
+        if origin is None and per_class.get(name, 0) >= 4:
             continue
-        # keep only objects the service's own codec treats as a fixed point: decoder/encoder asymmetries of a
-        # service (C05/C06's subject) must not read as a cEMI defect
         try:
-            stable = same(APCI.from_knx(bytes(obj.to_knx())), obj) and obj.calculated_length() == len(raw) - 1
+            emitted = bytes(obj.to_knx())
+            stable = same(APCI.from_knx(emitted), obj)
         except Exception:  # noqa: BLE001
             stable = False
         if not stable:
             ctx.count("service_instances_skipped_apci_level_asymmetry")
             continue
-        found[name] = (obj, len(raw) - 1)
-    ctx.count("service_classes_instantiated", len(found))
-    return [(n, o, l) for n, (o, l) in sorted(found.items())]
+        if (name, emitted) in found:
+            continue
+        found[(name, emitted)] = (obj, len(emitted) - 1)
+        per_class[name] = per_class.get(name, 0) + 1
+    ctx.count("service_classes_instantiated", len(per_class))
+    ctx.count("service_instances", len(found))
+    return [(n, o, l) for (n, _e), (o, l) in sorted(found.items())]
 
 
 def _wire_fields(raw: bytes):
@@ -174,8 +216,11 @@ def _judge_built(ctx, label, code, info, src, dst, tpci, payload, npdu, fl, hop,
     if grp != isinstance(dst, GroupAddress):
         ctx.violation("address-type-bit-wrong-" + ("group" if isinstance(dst, GroupAddress) else "individual"), witness,
                       f"destination {dst!r}: address type bit is {int(grp)}")
-    if lg != npdu:
-        ctx.count("wire_length_octet_differs_from_npdu")  # recorded, the parser's consistency check covers it
+    tpdu_octets = len(raw) - (2 + raw[1] + 7)
+    if lg != tpdu_octets - 1 or lg != npdu:
+        ctx.violation("length-octet-differs-from-tpdu-octets" + ("" if pname in ("GroupValueWrite", "GroupValueResponse", "control") else f"-{pname}"),
+                      dict(witness, length_octet=lg, tpdu_octets=tpdu_octets),
+                      f"({label}, {pname}): length octet {lg} in front of {tpdu_octets} TPDU octets (expected {tpdu_octets - 1})")
     ctx.count("wire_bits_checked")
     # parse back
     try:
@@ -277,14 +322,11 @@ def _built_frames(ctx) -> None:
                     continue
                 _judge_built(ctx, label, rot(CODES), rot(infos, 1), rot(src_choices, 2), dst, mk(), None, 0, fl, hop, "control")
 
-    # (4) one instance of every other service class x data TPCI pairs
+    # (4) several instances of every service class (every layout, zero / 0xFF fills) x data TPCI pairs
     for name, obj, npdu in services:
         for label, dst, mk in data_pairs[:: ctx.scale(3, 1)]:
             k += 1
             if not ctx.mine(k):
-                continue
-            if obj.calculated_length() != npdu:
-                ctx.count("service_instance_length_mismatch")  # recorded (C05/C06 territory)
                 continue
             _judge_built(ctx, label, rot(CODES), rot(infos, 1), rot(src_choices, 2), dst, mk(), obj, npdu,
                          rot(fsets, 4), rot(hops_valid, 3), name)
@@ -344,7 +386,18 @@ def _received_frames(ctx) -> None:
     """Every L_Data frame of the C12 corpus that parses: to_knx() == received octets under the allowed mask."""
     gen_rng = random.Random(f"C12-gen/{ctx.seed}")  # same stream as C12
     shown = 0
-    for i, (origin, raw) in enumerate(G.structured_frames(gen_rng, not ctx.quick)):
+
+    def variant_frames():
+        """Every service layout / fill of _variant_apdus() as a received frame (group data and connected data)."""
+        for _name, apdu in _variant_apdus(ctx):
+            if len(apdu) > 255:
+                continue
+            yield "V", G.l_data(G.L_DATA_IND, ctrl1=0x3C if len(apdu) > 16 else 0xBC, ctrl2=0xE0, dst=0x0901, tpdu=apdu)
+            yield "V", G.l_data(G.L_DATA_CON, ctrl1=0xB0, ctrl2=0x60, dst=0x1105, tpdu=bytes((apdu[0] | 0x4C,)) + apdu[1:])
+
+    import itertools
+
+    for i, (origin, raw) in enumerate(itertools.chain(variant_frames(), G.structured_frames(gen_rng, not ctx.quick))):
         if not ctx.mine(i):
             continue
         try:
@@ -416,7 +469,8 @@ def run(ctx):
         "(dst/TPCI label, payload class, NPDU bucket, message code, info present) + flag tuples + (origin, payload class, TPCI, length bucket, identical?)"
     )
     ctx.require("built_roundtrips", "wire_bits_checked", "refused_as_required", "reserialised_exact_table",
-                "reserialise_changed_allowed_bits", "reserialise_identical", "service_classes_instantiated", "telegram_roundtrips")
+                "reserialise_changed_allowed_bits", "reserialise_identical", "service_classes_instantiated", "telegram_roundtrips",
+                "variant_apdus", "service_instances")
     _built_frames(ctx)
     ctx.count("overlong_group_value_refused_at_creation_already", _gv_payload.refused_at_creation)
     _received_frames(ctx)
